@@ -200,7 +200,7 @@ Definition clean_up (line : bytes) : bytes :=
   trim (match split_once HASH line with Some (a, _) => a | None => line end).
 
 (* wildcard_match on the pattern QUOTE * QUOTE: first and last character are a double quote and there are at least two characters
-   (ConfigProofs.is_quoted_wildcard: equivalent to Krauss.wildcard_match on the decoded scalars) *)
+   (ConfigQuoteProofs.is_quoted_wildcard: equivalent to Krauss.wildcard_match on the decoded scalars) *)
 Definition is_quoted (v : bytes) : bool :=
   match v with
   | 34 :: r => match r with [] => false | _ => last r 0 =? 34 end
